@@ -83,6 +83,6 @@ package varutil
 //@   loop 1 invariant len(b) == n && -1 <= i && i < n && 0 <= remain && remain <= 10 && 0 <= cache
 
 // CleanPath: path.Clean without the leading slash (C01/C02: every lookup path goes through it)
-//@ func CleanPath [C01 C02 C09]
+//@ func CleanPath [C01 C02 C09 C03]
 //@   modifies $none
 //@   ensures w == cleanPath(p)
